@@ -1,0 +1,8 @@
+//go:build !verif
+
+package mempool
+
+import "github.com/33cn/chain33/types"
+
+func (mem *Mempool) verifEvent(kind string, tx *types.Transaction, block *types.Block, hashes [][]byte, err error) {
+}
